@@ -3,6 +3,7 @@ import Zlink.Model.DriverTx
 import Zlink.Model.DriverSer
 import Zlink.Model.DriverChain
 import Zlink.Model.DriverSrv
+import Zlink.Model.DriverEnv
 /-! `zmodel`: reads case lines on stdin, prints for each the model's observation and the Lean
     oracle's verdict on the implementation's observation. -/
 
@@ -15,6 +16,10 @@ def handleLine (line : String) : String :=
   | "ser" :: _ => DriverSer.handle ts
   | "chain" :: _ => DriverChain.handle ts
   | "srv" :: _ => DriverSrv.handle ts
+  | "reply" :: _ => DriverEnv.handle ts
+  | "calldec" :: _ => DriverEnv.handle ts
+  | "enc" :: _ => DriverEnv.handle ts
+  | "noparams" :: _ => DriverEnv.handle ts
   | _ => "skip"
 
 partial def loop (h : IO.FS.Stream) (out : IO.FS.Stream) : IO Unit := do
